@@ -174,12 +174,16 @@ func (srv *Server) serve(ctx context.Context, conn net.Conn) error {
 
 // Close gracefully closes the underlaying Postgres server.
 func (srv *Server) Close() error {
+	verifPoint("close:enter")
 	if srv.closing.Load() {
 		return nil
 	}
 
+	verifPoint("close:checked")
 	srv.closing.Store(true)
 	close(srv.closer)
+	verifPoint("close:signalled")
 	srv.wg.Wait()
+	verifPoint("close:waited")
 	return nil
 }
